@@ -22,7 +22,7 @@ RULE = ('C01 generator restricted to what both engines accept (named inner dista
         'psi tuple or an option passed in its 0 encoding.')
 ASSUMPTIONS = ['finite doubles, |x| <= 1e3, lengths <= 14, ndim <= 3',
                'use_pruning only where ED is a valid upper bound (no max_step; penalty off or equal lengths); '
-               'use_pruning and max_dist not combined (the engines document max_dist as ignored then)',
+               'use_pruning and max_dist are combined in a third of the pruning cases (the tighter bound decides)',
                'differential testing cannot tell which engine is wrong; the reference value is reported with every '
                'disagreement']
 
@@ -63,6 +63,11 @@ def _case(draw, max_len):
     case['s3'] = draw(gen.series(l3, l3, base, ndim))
     if case['use_pruning'] and len({l1, l2, l3}) > 1:
         case['penalty'] = None      # ED is only a valid bound with a penalty when the lengths are equal
+    if case['use_pruning'] and draw(st.integers(0, 2)) == 0:
+        # a threshold on top of pruning: the tighter of the two bounds decides in both engines
+        d = ref.ref_dtw(case['s1'], case['s2'], **gen.settings_kwargs(case))
+        if d != ref.inf and d > 1e-9:
+            case['max_dist'] = d * draw(st.sampled_from([0.5, 0.9, 1.1, 2.0]))
     if case.get('max_length_diff') == 0:
         # 0 is the C encoding of "off": max_length_diff=0 is not expressible in both engines
         case['max_length_diff'] = draw(st.integers(1, 3))
